@@ -37,3 +37,16 @@ long __vf_live_allocs(void) { return 0; }   // natively LeakSanitizer plays this
 void harness(void);
 }
 int main() { harness(); return 0; }
+// expected-delivery queue (same logic as rt_model.c)
+static int eq_id[64], eq_a[64], eq_b[64], eq_h, eq_t;
+extern "C" {
+void __vf_expect(int id, int a, int b) { if (eq_t < 64) { eq_id[eq_t] = id; eq_a[eq_t] = a; eq_b[eq_t] = b; eq_t++; } }
+void __vf_log(int id, int a, int b) {
+  __vf_check(eq_h < eq_t, "no delivery beyond the expected ones (exactly-once, never after unsubscribe/invalidate, muted observers skipped)");
+  __vf_check(eq_id[eq_h] == id, "deliveries happen in the expected (subscription) order to the expected observers");
+  __vf_check(eq_a[eq_h] == a && eq_b[eq_h] == b, "observer receives the argument values that were passed");
+  eq_h++;
+}
+void __vf_expect_done(void) { __vf_check(eq_h == eq_t, "every expected delivery happened (no live, unmuted observer was skipped)"); eq_h = eq_t = 0; }
+void __vf_expect_throw(int, int) {}
+}
